@@ -4,7 +4,7 @@ From VQ Require Import Model.Inventory.
 From VQ.Gen Require Import inv_euclid.
 Import ListNotations.
 Open Scope string_scope.
-Lemma pin_inv_euclid : inv_euclid =
+Definition pinned_inv_euclid : list (string * kind * bool) :=
   [("batch_mean", Buffer, true);
    ("batch_variance", Buffer, true);
    ("cluster_size", Buffer, true);
@@ -16,4 +16,5 @@ Lemma pin_inv_euclid : inv_euclid =
    ("embed", Param, true);
    ("embed_avg", Buffer, true);
    ("initted", Buffer, true)].
+Lemma pin_inv_euclid : inv_euclid = pinned_inv_euclid.
 Proof. reflexivity. Qed.
